@@ -585,12 +585,27 @@ func (b *builder) rowsStatement(ts uint32, tables []*TableDef) []ExpEvent {
 		body := tableMapBody(cfg.Format, t.ID, t.Flags, t.DB, t.Name, types, meta, nullable, t.OptMeta)
 		b.add(evTableMap, ts, 0, body, fmt.Sprintf("TABLE_MAP id=%d %s.%s cols=%d", t.ID, t.DB, t.Name, len(t.Cols)))
 	}
+	midIgnorable := func() {
+		// an ignorable / unknown event may sit anywhere, also between a table map
+		// and its rows event or between two rows events of one statement
+		if b.o.IgnorableGap > 0 && !b.forceRows && s.Chance(1, 12) {
+			switch s.N(3) {
+			case 0:
+				b.add(evIgnorable, ts, 0x80, s.Bytes(s.N(12)), "IGNORABLE(mid-statement)")
+			case 1:
+				b.add(byte(39+s.N(60)), ts, 0, s.Bytes(s.N(30)), "UNKNOWN-TYPE(mid-statement)")
+			case 2:
+				b.add(evUserVar, ts, 0, []byte{1, 0, 0, 0, 'x', 1}, "USER_VAR(mid-statement)")
+			}
+		}
+	}
 	for ti, t := range tables {
 		nev := 1
 		if s.Chance(1, 5) {
 			nev = 2
 		}
 		for e := 0; e < nev; e++ {
+			midIgnorable()
 			kind := s.N(3) // 0 insert 1 update 2 delete
 			nrows := 1 + s.N(b.o.MaxRows)
 			if s.Chance(1, 30) && !b.forceRows {
@@ -778,6 +793,9 @@ func (b *builder) addUnit(kind unitKind) {
 		b.queryEvent(ts, b.pickDB(), beginSQL())
 		exps := b.txBody(ts)
 		ts = h.ts(s)
+		if b.o.IgnorableGap > 0 && s.Chance(1, 10) {
+			b.add(evIgnorable, ts, 0x80, s.Bytes(s.N(8)), "IGNORABLE(before-commit)")
+		}
 		var commit *Event
 		switch kind {
 		case uTxXID:
